@@ -17,6 +17,7 @@ import ZlModel.Config
 import ZlModel.Cli
 import ZlModel.Walkers
 import ZlModel.Names
+import ZlModel.Thresholds
 open Zl Zl.Proto
 
 namespace Zl.Driver
@@ -398,6 +399,20 @@ def opNames (fields : List String) : String :=
     ",".intercalate ((vs.zip ms).map (fun p => if p.2 == '1' then toString p.1 else "*"))
   | _ => "bad-op"
 
+/-! ### threshold companions (C20) -/
+
+def opThr (kind : String) (fields : List String) : String :=
+  match kind, fields with
+  | "thr-val", [nb, na] =>
+    let nbI := nb.toInt?.getD 0
+    let naI := na.toInt?.getD 0
+    toString (Thresholds.validity398 nbI naI) ++ "," ++ toString (Thresholds.validity397 nbI naI)
+  | "thr-rc", [h] => toString (Thresholds.runeCount ((unhexBytes h).getD []))
+  | "thr-gn", [hs] =>
+    let names := hexNames hs
+    toString (Thresholds.givenNameMax names) ++ "," ++ toString (Thresholds.givenNameRecommended names)
+  | _, _ => "bad-op"
+
 def step (line : String) : String :=
   match line.splitOn "\t" with
   | "fw" :: rest => opFw rest
@@ -424,6 +439,9 @@ def step (line : String) : String :=
   | "src" :: rest => opSrc rest
   | "srclist" :: rest => opSrcList rest
   | "names" :: rest => opNames rest
+  | "thr-val" :: rest => opThr "thr-val" rest
+  | "thr-rc" :: rest => opThr "thr-rc" rest
+  | "thr-gn" :: rest => opThr "thr-gn" rest
   | "wcc" :: rest => opWalk "wcc" rest
   | "wbmp" :: rest => opWalk "wbmp" rest
   | "wna" :: rest => opWalk "wna" rest
